@@ -1,13 +1,14 @@
 SPECIFICATION Spec
 CONSTANTS
   AliasKeys = FALSE
+  ArrayOneWay = FALSE
   NsU = {1, 3}
   ClsU = {"A", "B", "Z"}
   KeyU = {1, 2}
   ValS = {"unset", "null", "v1", "v2"}
   ValT = {"unset", "v1"}
   ValU = {"unset", "v1"}
-  BadU = {"none", "undeclared", "wrongnull"}
+  BadU = {"none", "s_uint8_sc_null", "u_string_sc_val", "u_string_sc_null"}
   GenDepth = 8
 INVARIANT ImplRefinesReq
 CONSTRAINT GenConstraint
